@@ -91,6 +91,9 @@ Definition verdict (c : case) : Z :=
   if c_in_contract b then
     if negb (monitor b) then 2
     else if oracle c then (if corr c then 0 else 1)
+    (* a known finding is the recorded behaviour: the implementation still does what the model
+       (which mirrors the unchanged code, defects included) does; any other wrong answer is new *)
+    else if negb (corr c) then 2
     else if oracle_gen 1 c then 10
     else if oracle_gen 0 c then 11 else 2
   else (if corr c then 0 else 1).
